@@ -26,6 +26,7 @@ type NilAn struct {
 	needMemo  map[string]int // 0 unknown, 1 needs, 2 no
 	estMemo   map[string]*estResult
 	faMemo    map[string]*ForAll
+	lenBounds map[string]map[string]bool
 	Sites     int
 }
 
@@ -340,14 +341,26 @@ func (na *NilAn) indexSites(fn *ssa.Function, ins ssa.Instruction, X, idx ssa.Va
 		*out = append(*out, derefSite{fn: fn, ins: ins, v: idx, d: id, kind: "index-upper", aux: xd, how: "index into " + xd})
 	case untrustedSlice:
 		// untrusted slice indexed by a loop variable of another collection, or a constant
+		// an index captured by a closure (ic := i): the site moves to the closure's creation, where the
+		// loop that bounds it is visible (slice lengths of the proof do not change in between)
+		siteFn, siteIns := fn, ins
+		if fv, isFV := idxRootFreeVar(idx); isFV {
+			if mc, v := closureBindingValue(fv); mc != nil && v != nil {
+				if vd := desc(v); vd == "#i" || vd == "#j" || vd == "#k" {
+					id, siteFn, siteIns = vd, mc.Parent(), ssa.Instruction(mc)
+					if st := singleStoreOf(mc, fv); st != nil {
+						siteIns = st
+					}
+				}
+			}
+		}
 		if id == "#i" || id == "#j" || id == "#k" {
 			// loop bound
 			bound := ""
-			for _, a := range controllingConds(ins.Block()) {
+			for _, a := range controllingConds(siteIns.Block()) {
 				a = normAtom(a)
-				ds := desc(a.V)
-				if strings.HasPrefix(ds, "("+id+"<len(") && a.Want == True {
-					bound = strings.TrimSuffix(strings.TrimPrefix(ds, "("+id+"<"), ")")
+				if g, ok := parseGuard(a, nil); ok && g.Kind == "int" && g.Subject == id && g.Rel == "<" {
+					bound = g.BoundA.String()
 				}
 			}
 			if bound == "len("+xd+")" {
@@ -356,11 +369,82 @@ func (na *NilAn) indexSites(fn *ssa.Function, ins ssa.Instruction, X, idx ssa.Va
 			if bound == "" {
 				bound = "?"
 			}
-			*out = append(*out, derefSite{fn: fn, ins: ins, v: X, d: "len(" + xd + ")", kind: "len-eq", aux: bound, how: "index " + id + " (bounded by " + bound + ") into " + xd})
+			*out = append(*out, derefSite{fn: siteFn, ins: siteIns, v: X, d: "len(" + xd + ")", kind: "len-eq", aux: bound, how: "index " + id + " (bounded by " + bound + ") into " + xd})
 		} else {
 			*out = append(*out, derefSite{fn: fn, ins: ins, v: idx, d: id, kind: "index-upper", aux: xd, how: "index into untrusted " + xd})
 		}
 	}
+}
+
+// idxRootFreeVar: idx is a load of a captured variable.
+func idxRootFreeVar(idx ssa.Value) (*ssa.FreeVar, bool) {
+	if u, ok := stripConv(idx).(*ssa.UnOp); ok && u.Op == token.MUL {
+		if fv, ok := u.X.(*ssa.FreeVar); ok {
+			return fv, true
+		}
+	}
+	if fv, ok := idx.(*ssa.FreeVar); ok {
+		return fv, true
+	}
+	return nil, false
+}
+
+// closureBindingValue: the unique MakeClosure binding the free variable, and the single value stored in
+// the captured cell (nil when not unique).
+func closureBindingValue(fv *ssa.FreeVar) (*ssa.MakeClosure, ssa.Value) {
+	fn := fv.Parent()
+	par := fn.Parent()
+	if par == nil {
+		return nil, nil
+	}
+	idx := -1
+	for k, f := range fn.FreeVars {
+		if f == fv {
+			idx = k
+		}
+	}
+	var mcs []*ssa.MakeClosure
+	allInstrs(par, func(i ssa.Instruction) {
+		if mc, ok := i.(*ssa.MakeClosure); ok && mc.Fn == ssa.Value(fn) {
+			mcs = append(mcs, mc)
+		}
+	})
+	if len(mcs) != 1 || idx < 0 || idx >= len(mcs[0].Bindings) {
+		return nil, nil
+	}
+	b := mcs[0].Bindings[idx]
+	al, ok := b.(*ssa.Alloc)
+	if !ok {
+		return mcs[0], b
+	}
+	var val ssa.Value
+	n := 0
+	for _, r := range referrersOf(al) {
+		if st, ok := r.(*ssa.Store); ok && st.Addr == ssa.Value(al) {
+			val = st.Val
+			n++
+		}
+	}
+	if n != 1 {
+		return mcs[0], nil
+	}
+	return mcs[0], val
+}
+
+func singleStoreOf(mc *ssa.MakeClosure, fv *ssa.FreeVar) ssa.Instruction {
+	fn := fv.Parent()
+	for k, f := range fn.FreeVars {
+		if f == fv && k < len(mc.Bindings) {
+			if al, ok := mc.Bindings[k].(*ssa.Alloc); ok {
+				for _, r := range referrersOf(al) {
+					if st, ok := r.(*ssa.Store); ok && st.Addr == ssa.Value(al) {
+						return st
+					}
+				}
+			}
+		}
+	}
+	return nil
 }
 
 // matcher for a fact on descriptor d.
@@ -590,6 +674,30 @@ func (na *NilAn) established(fn *ssa.Function, ins ssa.Instruction, kind, d, aux
 	return res
 }
 
+// lengthBounds: the bounds E of all tests `len(X) == E` / `!=` on the length descriptor d in the reach.
+func (na *NilAn) lengthBounds(d string) []string {
+	if na.lenBounds == nil {
+		na.lenBounds = map[string]map[string]bool{}
+		for fn := range na.reach {
+			allInstrs(fn, func(i ssa.Instruction) {
+				bo, ok := i.(*ssa.BinOp)
+				if !ok || (bo.Op != token.EQL && bo.Op != token.NEQ) {
+					return
+				}
+				g, ok := parseGuard(Atom{V: bo, Want: True}, nil)
+				if !ok || g.Kind != "int" || !strings.HasPrefix(g.Subject, "len(") {
+					return
+				}
+				if na.lenBounds[g.Subject] == nil {
+					na.lenBounds[g.Subject] = map[string]bool{}
+				}
+				na.lenBounds[g.Subject][g.BoundA.String()] = true
+			})
+		}
+	}
+	return sortedKeys(na.lenBounds[d])
+}
+
 // Run evaluates all sites and records one obligation per (function, fact).
 func (na *NilAn) Run(R *Report, rule string) {
 	descReroot = true
@@ -618,6 +726,17 @@ func (na *NilAn) Run(R *Report, rule string) {
 		}
 		a.count++
 		er := na.established(s.fn, s.ins, s.kind, s.d, s.aux, 0, map[*ssa.Function]bool{})
+		if !er.ok && s.kind == "len-eq" && strings.HasPrefix(s.aux, "len(") {
+			// both lengths were tested equal to one common bound E
+			for _, e := range na.lengthBounds(s.d) {
+				e1 := na.established(s.fn, s.ins, "len-eq", s.d, e, 0, map[*ssa.Function]bool{})
+				e2 := na.established(s.fn, s.ins, "len-eq", s.aux, e, 0, map[*ssa.Function]bool{})
+				if e1.ok && e2.ok {
+					er = &estResult{ok: true, why: "both lengths equal " + e}
+					break
+				}
+			}
+		}
 		if !er.ok {
 			a.ok = false
 			a.why = append(a.why, na.P.Pos(s.ins.Pos())+" ("+s.how+"): "+er.why)
